@@ -128,6 +128,12 @@ func (c *MCipher) Open(dst, nonce, ct, aad []byte) ([]byte, error) {
 	}
 	for i := range aeadLog {
 		e := aeadLog[i]
+		if vSameTerm(e.key, c.key) && vSameTerm(e.nonce, nonce) && vSameTerm(e.aad, aad) && vSameTerm(e.ct, ct) {
+			return append(dst, e.pt...), nil
+		}
+	}
+	for i := range aeadLog {
+		e := aeadLog[i]
 		if vBytesEq(e.key, c.key) {
 			if vBytesEq(e.nonce, nonce) {
 				if vBytesEq(e.aad, aad) {
@@ -185,6 +191,14 @@ func HpkeSetupBaseR(suite hpke.CipherSuite, skR hpke.KEMPrivateKey, enc, info []
 	c := new(hpke.ReceiverContext)
 	for i := range hpkeLog {
 		e := hpkeLog[i]
+		if vSameTerm(e.enc, enc) && vSameTerm(e.pkR, sk.pub) && vSameTerm(e.info, info) {
+			rCtxID[c] = e.ctx
+			vGhostSet(c, "hpke_ctx", e.ctx)
+			return c, nil
+		}
+	}
+	for i := range hpkeLog {
+		e := hpkeLog[i]
 		if vBytesEq(e.enc, enc) {
 			if vBytesEq(e.pkR, sk.pub) {
 				if vBytesEq(e.info, info) {
@@ -213,6 +227,13 @@ func HpkeReceiverOpen(c *hpke.ReceiverContext, aad, ct []byte) ([]byte, error) {
 	seq := []byte{byte(rCtxSeq[c])}
 	if len(ct) < 16 {
 		return nil, errf("hpke: open failed")
+	}
+	for i := range hpkeSeal {
+		e := hpkeSeal[i]
+		if vSameTerm(e.key, rCtxID[c]) && vSameTerm(e.nonce, seq) && vSameTerm(e.aad, aad) && vSameTerm(e.ct, ct) {
+			rCtxSeq[c]++
+			return clone(e.pt), nil
+		}
 	}
 	for i := range hpkeSeal {
 		e := hpkeSeal[i]
